@@ -401,6 +401,13 @@ func historiesN(e *env, filters, rnames []string, depthAll, depthBFS, nsubs int)
 			o := ops[h]
 			switch o.kind {
 			case 'S':
+				if !refmatch.ValidFilter(o.filter) {
+					// an invalid filter is rejected and leaves the populated store as it was
+					if _, err := mt.Subscribe([]byte(o.filter), o.qos, subsObj[o.sub]); err == nil {
+						return fmt.Sprintf("step %d %s: the invalid filter was accepted", i+1, o), "", i + 1
+					}
+					continue
+				}
 				if _, err := mt.Subscribe([]byte(o.filter), o.qos, subsObj[o.sub]); err != nil {
 					return fmt.Sprintf("step %d %s fails: %v", i+1, o, err), "", i + 1
 				}
@@ -570,6 +577,12 @@ func C06(c *core.Ctx) {
 		historiesN(e, []string{"a", "a/+"}, nil, 5, 7, 4)
 	} else {
 		historiesN(e, []string{"a", "a/+"}, nil, 4, 6, 3)
+	}
+	// rejected filters on a populated store: they share leading levels with held subscriptions
+	if c.Thorough() {
+		histories(e, []string{"a/b", "a/b/a", "a/#/b", "a/b+", "a/b/#/a"}, []string{"a/b"}, 3, 5)
+	} else {
+		histories(e, []string{"a/b", "a/#/b", "a/b/#/a"}, nil, 3, 4)
 	}
 }
 
